@@ -328,6 +328,8 @@ def units(prop):
         unit.__name__ = "getitem_pipeline"
         return unit
     out.append(mk_full())
+    out.append(mk("resume", "command_line", "signals_to_torch_feat_dir", sel_resume, "resume-logic", contract_resume,
+                  [("manifest", setup_resume(True)), ("no_manifest", setup_resume(False))], "rtc." + prop.lower()))
     if prop == "C09":
         out.append(mk("kaldi_loop", "command_line", "compute_feats_from_kaldi_tables", sel_kaldi_loop, "utterance-loop", contract_kaldi_loop,
                       [(f"pre{a}_post{b}", setup_kaldi_loop(a, b)) for a, b in ((0, 0), (2, 2), (1, 0), (0, 1))], "rtc.c09"))
@@ -659,3 +661,135 @@ def contract_getitem_full(ndim, npre, npost, has_computer, with_map):
                  ("dataset_not_assigned", "FIELD_WRITES() == 0")],
     )
     return c
+
+
+# ---------------------------------------------------------------------------------------------- S7 the torch tool's resume logic
+# signals_to_torch_feat_dir, the two statements `utt2idx = dict(... enumerate(utt2path))` and `if options.manifest is not None: ...`:
+# (a) utt2idx maps every utterance of the FULL map to its position there (it is computed before anything is removed);
+# (b) with a manifest, the file is rewound and the utterances removed from the work list are exactly the stripped manifest lines, one
+#     pop per line and in order, each with a default (a listed utterance that is not in the map does not abort the run);
+# (c) without a manifest nothing is removed.
+# Library contracts assumed (A-IO-TEXT, A-PYSEM): iterating a text file yields its lines from the current position; seek(0) rewinds;
+# dict.pop(k, d) removes k if present and never raises; enumerate(dict) yields (position, key) in insertion order.
+
+KEY = api.uf("map_key", api.I, api.I)                 # j-th utterance id of the full map (insertion order)
+SL = api.uf("stripped_manifest_line", api.I, api.I)   # k-th line of the manifest, stripped
+RAWL = api.uf("raw_manifest_line", api.I, api.I)      # k-th line of the manifest as read (with its newline)
+
+
+def sel_resume(fn):
+    out = [s for s in fn.body if isinstance(s, ast.Assign) and "utt2idx" in [getattr(t, "id", None) for t in s.targets]]
+    out += [s for s in fn.body if isinstance(s, ast.If) and "options.manifest" in ast.unparse(s.test) and "utt2path" in ast.unparse(s)]
+    return sorted(out, key=lambda s: s.lineno)
+
+
+class _Line:
+    def __init__(self, k):
+        self.k = k
+
+    def sym_getattr(self, attr, ev, node):
+        if attr == "strip":
+            return symex.PyCallable(lambda ev2, a, kw, n2: SL(Z(self.k)) if not a and not kw else (_ for _ in ()).throw(Outside("strip with arguments")))
+        raise Outside(f"manifest line attribute .{attr}")
+
+
+class _Manifest:
+    def sym_getattr(self, attr, ev, node):
+        if attr == "seek":
+            def seek(ev2, a, kw, n2):
+                if len(a) != 1 or kw or not isinstance(a[0], int):
+                    raise Outside("seek form")
+                ev2.st.ghost["at_start"] = (a[0] == 0)
+                return None
+            return symex.PyCallable(seek)
+        raise Outside(f"manifest attribute .{attr}")
+
+    def sym_iter(self, ev, node):
+        n = ev.ex.ctx["L"] if ev.st.ghost["at_start"] is True else 0       # opened for appending: positioned at the end until rewound
+        ev.st.ghost["at_start"] = False
+        return SeqVal(n, lambda k: _Line(simp(Z(k))))
+
+
+class _WorkList:
+    """utt2path: the keys are KEY(0..m) minus the popped ones (ghost trace POPPED[0..np))"""
+    def sym_getattr(self, attr, ev, node):
+        if attr == "pop":
+            def pop(ev2, a, kw, n2):
+                st = ev2.st
+                lbl = f"L{n2.lineno - ev2.ex.fx.lineno}"
+                ev2.ex.oblige(st, len(a) == 2 and not kw, f"pop_has_a_default_and_cannot_raise.{lbl}", "trace", n2.lineno)
+                key = RAWL(Z(a[0].k)) if a and isinstance(a[0], _Line) else (a[0] if a else None)
+                if not symex.is_z3(key):
+                    raise Outside("popped key is not an utterance id")
+                st.ghost["POPPED"] = z3.Store(st.ghost["POPPED"], Z(st.ghost["np"]), Z(key))
+                st.ghost["np"] = simp(Z(st.ghost["np"]) + 1)
+                return Opaque("popped", "object")
+            return symex.PyCallable(pop)
+        raise Outside(f"work list attribute .{attr}")
+
+
+class _Map:
+    def __init__(self, n, getter):
+        self.n, self.getter = n, getter
+
+
+def h_enumerate(ex, st, args, kwargs, node, ev):
+    if len(args) != 1 or kwargs or not isinstance(args[0], _WorkList):
+        raise Outside("enumerate form")
+    if st.ghost["np"] == 0:
+        return SeqVal(ex.ctx["m"], lambda j: (simp(Z(j)), KEY(Z(j))))
+    # enumerated AFTER something was removed: positions in the reduced list, unrelated to the full map
+    rk = api.uf("reduced_key", api.I, api.I)
+    return SeqVal(api.sym("m_reduced"), lambda j: (simp(Z(j)), rk(Z(j))))
+
+
+def h_dict(ex, st, args, kwargs, node, ev):
+    if len(args) != 1 or kwargs or not isinstance(args[0], SeqVal):
+        raise Outside("dict() form")
+    return _Map(args[0].n, args[0].getter)
+
+
+def setup_resume(with_manifest):
+    def setup(ex, st):
+        m, L = api.sym("m"), api.sym("L")
+        st.assume(z3.And(m >= 0, L >= 0))
+        api.mk_obj(st, "options", "Options", {"manifest": _Manifest() if with_manifest else None})
+        st.env["utt2path"] = _WorkList()
+        st.ghost.update(at_start=False, np=0, POPPED=z3.Array("POPPED", api.I, api.I))
+        ex.ctx = dict(m=m, L=L, with_manifest=with_manifest)
+    return setup
+
+
+def contract_resume():
+    def utt2idx_ok(ev):
+        v = ev.st.env.get("utt2idx")
+        if not isinstance(v, _Map):
+            return z3.BoolVal(False)
+        j = z3.Int("jq")
+        item = v.getter(j)
+        if not (isinstance(item, tuple) and len(item) == 2 and symex.is_z3(item[0])):
+            return z3.BoolVal(False)
+        return z3.And(Z(v.n) == ev.ex.ctx["m"], z3.ForAll([j], z3.Implies(z3.And(j >= 0, j < ev.ex.ctx["m"]), z3.And(item[0] == KEY(j), Z(item[1]) == j))))
+
+    def removed_ok(ev):
+        L, g = ev.ex.ctx["L"], ev.st.ghost
+        if not ev.ex.ctx["with_manifest"]:
+            return Z(g["np"]) == 0
+        k = z3.Int("kq")
+        return z3.And(Z(g["np"]) == L, z3.ForAll([k], z3.Implies(z3.And(k >= 0, k < L), z3.Select(g["POPPED"], k) == SL(k))))
+
+    def inv(ev):
+        g = ev.st.ghost
+        k = z3.Int("kq")
+        zi = Z(ev.st.env["__zi"])
+        return z3.And(zi >= 0, zi <= ev.ex.ctx["L"], Z(g["np"]) == zi,
+                      z3.ForAll([k], z3.Implies(z3.And(k >= 0, k < zi), z3.Select(g["POPPED"], k) == SL(k))))
+
+    return Contract(
+        target="command_line:signals_to_torch_feat_dir", uses=["A-PYSEM", "A-IO-TEXT"],
+        consts={"UTT2IDX_OK": SpecFn(utt2idx_ok), "REMOVED_OK": SpecFn(removed_ok), "INV": SpecFn(inv)},
+        handlers={"enumerate": h_enumerate, "dict": h_dict},
+        loops={0: LoopSpec(kind="for", modifies_ghost=["np", "POPPED"], invariant=[("pops_are_the_stripped_lines_so_far", "INV()")])},
+        ensures=[("utt2idx_is_the_position_in_the_full_map", "UTT2IDX_OK()"),
+                 ("removed_are_exactly_the_manifest_lines", "REMOVED_OK()")],
+    )
